@@ -79,6 +79,14 @@ REG["C13"] = dict(
     assumptions=["hash/crc32 is modelled by the bitwise reflected CRC-32 definition (poly from the table)", "K2: stubs for thrift.Decoder.Decode (yields the stored page header) and Column.decodeDictionary (recorder)"],
 )
 
+REG["C19"] = dict(
+    harnesses=[H(P + "/variant", "VerifH_C19_primitives"), H(P + "/variant", "VerifH_C19_containers")],
+    explanation="variant.Encode -> decodeValue/Decode on the real code: every primitive kind (null, bool, int8..int64, float, double, date, the five time/timestamp kinds, uuid, decimal4/8/16 with symbolic scale, short and long strings around the 63/64-byte boundary, binary) with symbolic payload decodes to a value Equal to the original (floats bit-exact) and the decoder consumes exactly the encoded length; small containers (arrays, objects with unsorted field names, nesting depth 3) of symbolic integers round-trip.",
+    bounds={"quick": "one primitive per path with fully symbolic payload; strings of length {0,1,3,63,64,65} with 3 symbolic ASCII bytes; binary <=4 bytes; 4 container shapes with 3 symbolic leaves", "thorough": "same"},
+    outside=["shredding (variant_shredded_*.go, convert_variant.go): schema- and reflection-driven, not decided", "non-ASCII UTF-8 strings", "reflection-based Marshal"],
+    assumptions=["sort.Slice is modelled by a stable insertion sort using the caller's less function"],
+)
+
 LEVEL_TEXT = "bounded symbolic execution of the real functions (go/ssa of the current /repo tree) with an SMT solver deciding every assertion for all inputs inside the stated bounds; counterexamples are replayed against the natively compiled code before being reported"
 
 def main():
